@@ -238,6 +238,121 @@ def _with_condition(stmt, what) -> list:
     return stmt.body
 
 
+# ---- per-run linearisation of the synchronisation operations of one task (statement order of the source)
+
+_SOP_HEADER = """
+(* Synchronisation operations of one task, in the statement order of the source (extracted on every run by
+   harness/props/c09.py::_linearise from _write_one / _write_serial / _write_tensor / _write_tensor_with_budget_at /
+   _locked_callback; fails closed on any other shape). *)
+Inductive lockname : Type := CbInner | CbOuter | TensorLock.
+Inductive sop : Type :=
+| OLock (l : lockname) | OUnlock (l : lockname) | OCallback | OOpenHandle | OAcquire | OWrite | ORelease.
+"""
+
+_LOCKS = {"callback_lock": "CbInner", "self._tensor_write_locks[id(tensor)]": "TensorLock"}
+
+
+def _call_name(e):
+    return ast.unparse(e.func) if isinstance(e, ast.Call) else None
+
+
+def _linearise(mod, stmts, where, locks=_LOCKS):
+    """list of sop constructor texts for a statement list; Unsupported on anything that may synchronise
+    and is not one of the known shapes"""
+    out = []
+    for st in _strip_doc(list(stmts)):
+        if isinstance(st, ast.With):
+            _need(len(st.items) == 1 and st.items[0].optional_vars is None, f"{where}: single `with` item")
+            key = ast.unparse(st.items[0].context_expr)
+            _need(key in locks, f"{where}: `with {key}` is not a known lock")
+            out.append(f"OLock {locks[key]}")
+            out += _linearise(mod, st.body, where, locks)
+            out.append(f"OUnlock {locks[key]}")
+            continue
+        if isinstance(st, ast.Expr) and isinstance(st.value, ast.Call):
+            name = _call_name(st.value)
+            call = st.value
+            if name in ("self._invoke_callback", "inner"):
+                out.append("OCallback")
+                continue
+            if name == "self._write_tensor":
+                _need(len(call.args) == 4 and not call.keywords, f"{where}: self._write_tensor(tensor, file, info, budget)")
+                fa = ast.unparse(call.args[1])
+                if fa == "_thread_file()":
+                    out.append("OOpenHandle")
+                else:
+                    _need(fa == "data_file", f"{where}: file argument of _write_tensor is {fa}")
+                out.append("BUDGETARG:" + ast.unparse(call.args[3]))
+                wt = T.find_function(mod, "_ExternalDataWriter._write_tensor")
+                out += _linearise(mod, wt.body, "_write_tensor", locks)
+                continue
+            if name == "_write_tensor_with_budget_at":
+                _need(ast.unparse(call) == "_write_tensor_with_budget_at(tensor, file, info.offset, info.length, budget)",
+                      "_write_tensor calls _write_tensor_with_budget_at(tensor, file, info.offset, info.length, budget)")
+                wb = _strip_doc(T.find_function(mod, "_write_tensor_with_budget_at").body)
+                _need(len(wb) == 3 and ast.unparse(wb[0]).replace("\n", " ").split() ==
+                      "if budget is None: _write_tensor_at(tensor, file, offset) return".split(),
+                      "_write_tensor_with_budget_at starts with the budget-is-None shortcut")
+                _need(ast.unparse(wb[1]) == "reservation = budget.acquire(_reservation_bytes(tensor, length))", "acquire")
+                _need(isinstance(wb[2], ast.Try) and not wb[2].handlers and not wb[2].orelse
+                      and [ast.unparse(x) for x in wb[2].body] == ["_write_tensor_at(tensor, file, offset)"]
+                      and [ast.unparse(x) for x in wb[2].finalbody] == ["budget.release(reservation)"],
+                      "try: _write_tensor_at(...) finally: budget.release(reservation)")
+                out += ["OAcquire", "OWrite", "ORelease"]
+                continue
+        # anything else must not synchronise
+        txt = ast.unparse(st)
+        for word in (".acquire(", ".release(", "with ", "_write_tensor", "_invoke_callback", "wait", "notify",
+                     "threading.", "submit(", "shutdown("):
+            _need(word not in txt, f"{where}: unexpected synchronising statement `{txt[:80]}`")
+    return out
+
+
+def _program_order(mod) -> str:
+    wp = T.find_function(mod, "_ExternalDataWriter._write_parallel")
+    one = [n for n in wp.body if isinstance(n, ast.FunctionDef) and n.name == "_write_one"]
+    _need(len(one) == 1, "_write_parallel defines _write_one")
+    par = _linearise(mod, one[0].body, "_write_one")
+    # the budget handed to the workers is never None
+    basg = [ast.unparse(n) for n in wp.body if isinstance(n, ast.Assign) and ast.unparse(n.targets[0]) == "budget"]
+    _need(len(basg) == 1 and "".join(basg[0].split()) ==
+          "budget=self._budgetifself._budgetisnotNoneelse_ByteBudget(self._max_in_flight_bytes)",
+          "_write_parallel: budget = self._budget if self._budget is not None else _ByteBudget(self._max_in_flight_bytes)")
+    sub = [n for n in ast.walk(wp) if isinstance(n, ast.Call) and _call_name(n) == "executor.submit"]
+    _need(len(sub) == 1 and ast.unparse(sub[0]) == "executor.submit(_write_one, i)", "executor.submit(_write_one, i)")
+    _need("for i in range(len(self._tensors))" in ast.unparse(wp), "one job per tensor: range(len(self._tensors))")
+    ws = _strip_doc(T.find_function(mod, "_ExternalDataWriter._write_serial").body)
+    _need(len(ws) == 1 and isinstance(ws[0], ast.With) and len(ws[0].body) == 1 and isinstance(ws[0].body[0], ast.For),
+          "_write_serial: with open(...) as data_file: for ...")
+    loop = ws[0].body[0]
+    _need("enumerate(zip(self._tensors, self._external_data_infos, strict=True))" in ast.unparse(loop.iter)
+          and not loop.orelse, "_write_serial iterates over every tensor")
+    ser = _linearise(mod, [x for x in loop.body if not isinstance(x, ast.Assert)], "_write_serial")
+    _need(par.count("BUDGETARG:budget") == 1 and ser.count("BUDGETARG:self._budget") == 1,
+          "the writers pass `budget` / `self._budget` to _write_tensor")
+    par = [x for x in par if not x.startswith("BUDGETARG")]
+    ser = [x for x in ser if not x.startswith("BUDGETARG")]
+    wet = T.find_function(mod, "_write_external_tensors")
+    lc = [n for n in ast.walk(wet) if isinstance(n, ast.FunctionDef) and n.name == "_wrapped"]
+    _need(len(lc) == 1, "_locked_callback._wrapped")
+    outer = _linearise(mod, lc[0].body, "_wrapped", {"callback_lock": "CbOuter"})
+    # the shard drivers hand every writer the ONE shared budget and lock table, and wrap the callback
+    subm = [n for n in ast.walk(wet) if isinstance(n, ast.Call) and _call_name(n) == "executor.submit"]
+    _need(len(subm) == 1, "one executor.submit in _write_external_tensors")
+    kws = {k.arg: ast.unparse(k.value) for k in subm[0].keywords}
+    _need(kws.get("_budget") == "shared_budget" and kws.get("_tensor_write_locks") == "tensor_write_locks"
+          and "_locked_callback(job_callback)" in kws.get("callback", ""),
+          "shard jobs get _budget=shared_budget, _tensor_write_locks=tensor_write_locks, callback=_locked_callback(...)")
+    _need("shared_budget = _ByteBudget(max_in_flight_bytes)" in ast.unparse(wet), "shared_budget = _ByteBudget(max_in_flight_bytes)")
+    for fn, needle in (("convert_tensors_to_external", "budget=_budget"), ("_write_external_data", "budget=budget")):
+        _need(needle in ast.unparse(T.find_function(mod, fn)), f"{fn} forwards the budget ({needle})")
+    lst = lambda xs: "[" + "; ".join(xs) + "]"  # noqa: E731
+    return (_SOP_HEADER +
+            f"Definition parallel_task_ops : list sop := {lst(par)}.\n"
+            f"Definition serial_task_ops : list sop := {lst(ser)}.\n"
+            f"Definition outer_callback_ops : list sop := {lst(outer)}.\n")
+
+
 def generate(ck) -> bool:
     """Gen/C09Gen.v: the guards and updates of _ByteBudget.{__init__,acquire,release} and _reservation_bytes,
     taken expression by expression from the source.  The control skeleton around them (which guard is
@@ -333,6 +448,7 @@ def generate(ck) -> bool:
         _need(ast.unparse(wt[1]) == "reservation = budget.acquire(_reservation_bytes(tensor, length))",
               "reservation = budget.acquire(_reservation_bytes(tensor, length))")
         _need(ast.unparse(wt[2].finalbody[0]) == "budget.release(reservation)", "finally: budget.release(reservation)")
+        out.append(_program_order(mod))
         digests = {q: T.ast_digest(T.find_function(mod, q)) for q in (
             "_ByteBudget.acquire", "_ByteBudget.release", "_write_tensor_with_budget_at",
             "_ExternalDataWriter._write_parallel", "_ExternalDataWriter._write_serial",
@@ -1010,16 +1126,19 @@ def invoke_save(hc, model, objs, out, callback, max_workers, cap):
        "write"   external_data._write_external_tensors (what unload_from_model calls; honours max_shard)"""
     from onnx_ir import external_data as ed
     entry = hc.get("entry", "unload")
+    # hc["align"] = [alignment, align_threshold]: tensors longer than the threshold start at multiples of max(4096, a)
+    al, thr = hc["align"] if hc.get("align") else (None, ed._DEFAULT_ALIGN_THRESHOLD)
     if entry == "unload":
         return ed.unload_from_model(model, out, "m.data", max_shard_size_bytes=hc["max_shard"], callback=callback,
-                                    max_workers=max_workers, max_in_flight_bytes=cap)
+                                    max_workers=max_workers, max_in_flight_bytes=cap, alignment=al,
+                                    align_threshold=thr)
     tensors = [objs[t["obj"]] for t in hc["tensors"]]
     if entry == "convert":
         return ed.convert_tensors_to_external(tensors, out, "m.data", callback=callback, max_workers=max_workers,
-                                              max_in_flight_bytes=cap)
+                                              max_in_flight_bytes=cap, alignment=al, align_threshold=thr)
     return ed._write_external_tensors(tensors, out, "m.data", max_shard_size_bytes=hc["max_shard"], callback=callback,
-                                      max_workers=max_workers, max_in_flight_bytes=cap, alignment=None,
-                                      align_threshold=ed._DEFAULT_ALIGN_THRESHOLD)
+                                      max_workers=max_workers, max_in_flight_bytes=cap, alignment=al,
+                                      align_threshold=thr)
 
 
 def build_model(hc, workdir, with_failures=True):
@@ -1347,15 +1466,19 @@ def case_term(hc, plan, res) -> str:
     raised = res["outcome"] != "ok"
     files = [] if raised else [clist(cZ(b) for b in res["files"].get(n, b"")) for n in plan["names"]]
     nevals = sum((res.get("write_counts") or {}).values())
+    lens = "None"
+    if hc.get("align") and not raised:
+        lens = "(Some " + clist(str(len(res["files"].get(n, b""))) for n in plan["names"]) + ")"
+        files = []
     return (f"({cfg_term(hc, plan)},\n   {trace_term(res['steps'])},\n   {cbool(raised)}, "
-            f"{clist(str(i) for i, _ in res['cb_log'])}, {clist(files)}, {res.get('nopen', 0)}, {nevals})")
+            f"{clist(str(i) for i, _ in res['cb_log'])}, {clist(files)}, {lens}, {res.get('nopen', 0)}, {nevals})")
 
 
 def cases_text(cases) -> str:
-    ty = "(cfg * list ostep * bool * list nat * list (list Z) * nat * nat)%type"
+    ty = "(cfg * list ostep * bool * list nat * list (list Z) * option (list nat) * nat * nat)%type"
     return (CASE_HEADER + f"Definition cases : list {ty} :=\n  " + ";\n  ".join(["["] and []) +
             "[" + ";\n  ".join(case_term(*c) for c in cases) + "].\n"
-            f"Definition agree (x : {ty}) : bool := let '(c, tr, r, cbs, fs, no, ne) := x in run_agrees c tr r cbs fs no ne.\n"
+            f"Definition agree (x : {ty}) : bool := let '(c, tr, r, cbs, fs, ls, no, ne) := x in run_agrees c tr r cbs fs ls no ne.\n"
             "Eval vm_compute in (failing agree cases).\n")
 
 
@@ -1537,6 +1660,19 @@ def gen_hc(rng, size="small", fail=None):
         return {"tensors": tensors, "max_workers": mw, "cap": cap,
                 "max_shard": rng.choice([None, 4, 6]) if entry == "write" else None, "chunk": None,
                 "tseed": rng.randrange(1 << 30), "entry": entry}
+    if size == "aligned":
+        # aligned offsets: tensors longer than the threshold start at multiples of 4096 (gaps in the file; the
+        # parallel writer preallocates, the serial one seeks past EOF); single file or shards
+        n, mw = rng.choice([3, 4]), rng.choice([2, 3, 4, 6])
+        cap = rng.choice([2, 4, 8, 1 << 20])
+        thr = rng.choice([0, 2, 3])
+        tensors = [{"len": rng.choice([1, 2, 3, 4, 6]), "obj": i, "ext": False, "cbfail": False, "wfail": False}
+                   for i in range(n)]
+        if fail if fail is not None else rng.random() < 0.2:
+            _inject_failure(rng, tensors, rng.randrange(n))
+        return {"tensors": tensors, "max_workers": mw, "cap": cap, "max_shard": rng.choice([None, None, 4100, 8200]),
+                "chunk": None, "tseed": rng.randrange(1 << 30), "align": [rng.choice([1, 512, 4096]), thr],
+                "entry": rng.choice(["unload", "convert", "write"])}
     if size == "extchunk":
         # ExternalTensor sources longer than the budget, copied through userspace in chunks <= budget / 2
         n, mw = rng.choice([3, 4]), rng.choice([2, 3, 4])
@@ -1953,7 +2089,7 @@ def run(ck) -> None:
     for i in range(n_cfg):
         if col.failures and len(col.failures) > 3:
             break
-        hc = gen_hc(rng, ["large", "small", "twolevel", "oneshard", "zerolen", "small", "extchunk", "twolevel", "zerolen", "oneshard"][i % 10])
+        hc = gen_hc(rng, ["large", "small", "twolevel", "oneshard", "zerolen", "small", "extchunk", "twolevel", "aligned", "oneshard"][i % 10])
         try:
             plan = col.plan(hc)
         except Exception as e:  # noqa: BLE001
@@ -1969,6 +2105,8 @@ def run(ck) -> None:
             ck.hist("configs_special", f"fault kind {kind}")
         if hc.get("open_fail"):
             ck.hist("configs_special", "fault kind EMFILE on worker open")
+        if hc.get("align"):
+            ck.hist("configs_special", "aligned offsets")
         if hc.get("entry", "unload") != "unload":
             ck.hist("configs_special", f"entry point {hc['entry']}, zero-length tensors: "
                                        f"{sum(1 for t in hc['tensors'] if t['len'] == 0)}")
@@ -2003,7 +2141,7 @@ def run(ck) -> None:
     if col.failures:
         soak_cfgs = 0              # already failing under a replayable schedule: report that
     for i in range(soak_cfgs):
-        hc = gen_hc(rng, ["twolevel", "large", "oneshard", "extchunk", "zerolen"][i % 5])
+        hc = gen_hc(rng, ["twolevel", "large", "oneshard", "extchunk", "zerolen", "aligned"][i % 6])
         plan = col.plan(hc)
         bad = soak(hc, plan, col.wd, rng, soak_runs)
         ck.count(soak_runs)
@@ -2045,7 +2183,7 @@ def search(ck, col) -> None:
     i = 0
     while time.time() < deadline:
         i += 1
-        hc = gen_hc(rng, rng.choice(["tiny", "small", "small", "large", "twolevel", "oneshard", "extchunk", "zerolen"]))
+        hc = gen_hc(rng, rng.choice(["tiny", "small", "small", "large", "twolevel", "oneshard", "extchunk", "zerolen", "aligned"]))
         try:
             plan = col.plan(hc)
         except Exception:  # noqa: BLE001
